@@ -117,6 +117,8 @@ def run(tier, seed, rng):
     # mode B: real rustc, all derives incl. FromRepr; sampled in the quick tier
     bcases, bmodel = [], []
     for i, (c, m) in enumerate(zip(cases, model)):
+        if c['rule'].endswith('modeA-only'):
+            continue
         if c['rule'].startswith('R4-disc') and c['derive'] != 'EnumDiscriminants':
             continue  # `strum_discriminants` is a helper attribute of EnumDiscriminants only: rustc itself rejects it elsewhere
         if tier == 'thorough' or c['derive'] == 'FromRepr' or i % 4 == 0:
